@@ -328,7 +328,7 @@ class Run:
                 fails += 1
                 names = [f[0] for f in fl] + ([f"raises-nothing ({type(exc).__name__}: {exc})"] if exc else [])
                 self._report_violation(f"{label}/{names[0]}", scenario, params, M.inputs or inputs, reproduced=True,
-                                       detail={"failed_checks": names, "layer": "bounded"})
+                                       detail={"failed_checks": names, "layer": "bounded", "tolerance": tol})
                 if fails >= 3:
                     break
         self.bounded.append({"label": label, "scenario": scenario.__name__, "params": _jsonable(params),
